@@ -398,8 +398,32 @@ def decisionBudget : List (String × String × Nat) :=
    ("common", "!=", 2),
    ("common", "lit:0", 6),
    ("common", "lit:1", 12),
+   ("common", "str:decode CBOR failure: {}", 1),
+   ("common", "str:duplicate map key", 1),
+   ("common", "str:encode CBOR failure", 1),
+   ("common", "str:expected recognized IANA value", 1),
+   ("common", "str:expected value in IANA or private use range", 1),
+   ("common", "str:extraneous data in CBOR input", 1),
+   ("common", "str:got {}, expected {}", 1),
+   ("common", "str:int/tstr", 3),
+   ("common", "str:other tag", 1),
+   ("common", "str:out of range integer value", 1),
+   ("common", "str:std", 1),
+   ("common", "str:tag", 1),
    ("util", "if", 7),
    ("util", "match", 1),
+   ("util", "str:array", 2),
+   ("util", "str:bool", 1),
+   ("util", "str:bstr", 2),
+   ("util", "str:empty bstr", 1),
+   ("util", "str:float", 1),
+   ("util", "str:int", 2),
+   ("util", "str:map", 2),
+   ("util", "str:non-empty bstr", 1),
+   ("util", "str:nul", 1),
+   ("util", "str:other", 1),
+   ("util", "str:tag", 2),
+   ("util", "str:tstr", 2),
    ("header", "if", 22),
    ("header", "match", 3),
    ("header", "==", 2),
@@ -410,6 +434,22 @@ def decisionBudget : List (String × String × Nat) :=
    ("header", "lit:0", 3),
    ("header", "lit:1", 4),
    ("header", "lit:16", 1),
+   ("header", "str:IV and partial-IV specified", 1),
+   ("header", "str:arbitrary text", 1),
+   ("header", "str:array or bstr value", 1),
+   ("header", "str:array value", 1),
+   ("header", "str:empty array", 1),
+   ("header", "str:empty sig array", 1),
+   ("header", "str:empty tstr", 1),
+   ("header", "str:leading/trailing whitespace", 1),
+   ("header", "str:no leading/trailing whitespace", 1),
+   ("header", "str:non-empty array", 1),
+   ("header", "str:non-empty sig array", 1),
+   ("header", "str:non-empty tstr", 1),
+   ("header", "str:only one of IV and partial IV", 1),
+   ("header", "str:text of form type/subtype", 1),
+   ("header", "str:value() method used to set core header parameter", 1),
+   ("header", "chr:/", 1),
    ("sign", "if", 4),
    ("sign", "match", 5),
    ("sign", "!=", 3),
@@ -418,6 +458,16 @@ def decisionBudget : List (String × String × Nat) :=
    ("sign", "lit:2", 3),
    ("sign", "lit:3", 3),
    ("sign", "lit:4", 2),
+   ("sign", "str:CounterSignature", 1),
+   ("sign", "str:Signature", 1),
+   ("sign", "str:Signature1", 1),
+   ("sign", "str:array", 3),
+   ("sign", "str:array with 3 items", 1),
+   ("sign", "str:array with 4 items", 2),
+   ("sign", "str:bstr or nil", 2),
+   ("sign", "str:failed to serialize header", 2),
+   ("sign", "str:map for COSE_Signature", 1),
+   ("sign", "str:non-signature", 1),
    ("mac", "if", 2),
    ("mac", "match", 5),
    ("mac", "!=", 2),
@@ -427,6 +477,14 @@ def decisionBudget : List (String × String × Nat) :=
    ("mac", "lit:3", 2),
    ("mac", "lit:4", 2),
    ("mac", "lit:5", 1),
+   ("mac", "str:MAC", 1),
+   ("mac", "str:MAC0", 1),
+   ("mac", "str:array", 2),
+   ("mac", "str:array with 4 items", 1),
+   ("mac", "str:array with 5 items", 1),
+   ("mac", "str:bstr", 2),
+   ("mac", "str:failed to serialize header", 1),
+   ("mac", "str:payload missing", 2),
    ("encrypt", "if", 5),
    ("encrypt", "match", 9),
    ("encrypt", "==", 1),
@@ -437,9 +495,29 @@ def decisionBudget : List (String × String × Nat) :=
    ("encrypt", "lit:2", 3),
    ("encrypt", "lit:3", 4),
    ("encrypt", "lit:4", 3),
+   ("encrypt", "str:Enc_Recipient", 1),
+   ("encrypt", "str:Encrypt", 1),
+   ("encrypt", "str:Encrypt0", 1),
+   ("encrypt", "str:Mac_Recipient", 1),
+   ("encrypt", "str:Rec_Recipient", 1),
+   ("encrypt", "str:array", 3),
+   ("encrypt", "str:array with 3 items", 1),
+   ("encrypt", "str:array with 3 or 4 items", 1),
+   ("encrypt", "str:array with 4 items", 1),
+   ("encrypt", "str:bstr", 2),
+   ("encrypt", "str:bstr / null", 1),
+   ("encrypt", "str:failed to serialize header", 1),
+   ("encrypt", "str:unsupported encryption context {:?}", 2),
    ("key", "if", 10),
    ("key", "match", 2),
    ("key", "==", 1),
+   ("key", "str:empty array", 1),
+   ("key", "str:mandatory kty label", 1),
+   ("key", "str:no kty label", 1),
+   ("key", "str:non-empty array", 1),
+   ("key", "str:param() method used to set KeyParameter", 1),
+   ("key", "str:repeated array entry", 1),
+   ("key", "str:unique array label", 1),
    ("context", "if", 5),
    ("context", "match", 6),
    ("context", "==", 1),
@@ -450,12 +528,21 @@ def decisionBudget : List (String × String × Nat) :=
    ("context", "lit:2", 4),
    ("context", "lit:3", 4),
    ("context", "lit:4", 2),
+   ("context", "str:array", 3),
+   ("context", "str:array with 2 or 3 items", 1),
+   ("context", "str:array with 3 items", 1),
+   ("context", "str:array with at least 4 items", 1),
+   ("context", "str:bstr / int / nil", 1),
+   ("context", "str:bstr / nil", 2),
    ("cwt", "if", 16),
    ("cwt", "match", 4),
    ("cwt", "==", 7),
    ("cwt", "<=", 1),
    ("cwt", ">=", 1),
    ("cwt", "&&", 1),
+   ("cwt", "str:claim() method used to set core claim", 1),
+   ("cwt", "str:int/float", 1),
+   ("cwt", "str:map", 1),
    ("iana", "if", 1),
    ("iana", "match", 1),
    ("iana", "==", 1)]
